@@ -144,6 +144,12 @@ async fn main() {
             }
         };
         let mut b = b;
+        if which == "idjump" && b.id == 4 {
+            b.id = 5;
+            b.merkle_root = [0; 32];
+            b.generate().unwrap();
+            resign(&mut b, &node.sk);
+        }
         if which == "nofeetx" && b.id == 6 {
             let idx = b.transactions.iter().position(|t| t.transaction_type == TransactionType::Fee).unwrap();
             b.transactions.remove(idx);
